@@ -29,6 +29,10 @@ ROWS = {
    technique='property-based testing: exhaustive single-fault enumeration over all (class, constraint, placement) triples + Hypothesis trees with 0/1 fault, judged by a reference validator written from the statement',
    text='For every class a valid instance must pass validation and every single declared-constraint fault (required attribute, occurrence bound, typed value/enumeration), planted at the root or under parent/grandparent classes, must be rejected; both directions checked.',
    note='Reference validator decides only clearly valid/invalid lexical forms; maxlen facets and grey-zone spellings are not generated; class-specific verify() rules are honoured by the valid-instance generator.'),
+ 'C02': dict(level='exploration', design='3/C02',
+   technique='exhaustive enumeration of the 192-row option/signature/corruption table + property-based generated identities per row; reference decision predicate (iff oracle)',
+   text='Every combination of the three SP signature options, plain/encrypted assertion, what was signed and which signature was corrupted (two ways) is built by the harness and delivered to the SP; acceptance must equal the documented predicate in both directions.',
+   note=TOOL_NOTE + '; documents built and signed by the harness templates, frozen clock.'),
 }
 NOT_YET = {}
 def main():
